@@ -217,7 +217,7 @@ class Check:
         for f in files:
             path = os.path.join(THEORIES, f)
             src = open(path).read()
-            names = re.findall(r"^(?:Theorem|Lemma|Corollary)\s+(\w+)", src, re.M)
+            names = re.findall(r"^\s*(?:Theorem|Lemma|Corollary)\s+(\w+)", src, re.M)
             thms += names
             rc, out = sh(["timeout", "600", "coqc", "-Q", THEORIES, "", path], cwd=COQ, timeout=700)
             if rc != 0:
